@@ -745,10 +745,14 @@ class PaneConverter(Converter[PaneBaseT]):
         ]
         self.field_map: t.Dict[str, int] = {}
 
+        # python names first, then the configured names: a name given to one field (``rename``, ``aliases``, ``in_names``)
+        # takes precedence over the python name of another field
+        for (i, f) in enumerate(self.fields):
+            if f.init:
+                self.field_map[f.name] = i
         for (i, f) in enumerate(self.fields):
             if not f.init:
                 continue
-            self.field_map[f.name] = i
             for alias in f.in_names:
                 self.field_map[alias] = i
 
